@@ -105,6 +105,7 @@ def chain_walk(run, F, PV, C):
     # ---- (a) climb iteration
     W = Walker(A, fn, C, climb_atom)
     n_cases = 0
+    W.stop_at_for = True
     for lf in W.walk(ch, stops={ch, ca}):
         kind = "next" if lf.kind == "stop" and lf.node is ch else ("leave" if lf.kind == "stop" and lf.node is ca else f"{lf.kind} at line {lf.node.lineno}")
         pushes = [v for k, st, v in lf.effects if k == "expr" and isinstance(v, ast.Call) and call_name(v) == "append"
